@@ -50,6 +50,8 @@ def gen_cases(tier, seed):
         cases.append({"id": f"rnd{i}", "family": "rnd", "seed": [seed, "rnd", i]})
     for i in range(60 if tier == "quick" else 600):
         cases.append({"id": f"ddp{i}", "family": "ddp", "seed": [seed, "c04ddp", i], "interleavings": 1, "backend": "threaded"})
+    for i in range(120 if tier == "quick" else 800):
+        cases.append({"id": f"shard{i}", "family": "sharded", "mode": ("hsdp", "hybrid")[i % 2], "seed": [seed, "c04shard", i], "interleavings": 1})
     return cases
 
 
@@ -98,6 +100,19 @@ def run_case(case):
         c["evals"] = c["ddp_absent_params_checked"]
         c.pop("set_interleavings", None)
         return {"counters": c, "sigs": [["ddp"] + s_ for s_ in out["sigs"]] if c["ddp_absent_params_checked"] else [], "sample": out["sample"]}
+
+    if case["family"] == "sharded":
+        # HSDP / HybridShard keep rank-global masked lists of their own: absent shards must stay bit-identical and present ones
+        # must follow their own serial twin on every simulated rank (worlds shared with C07 / C08)
+        from . import c07
+
+        out = c07.run_sharded(case, ID)
+        c = out["counters"]
+        c["sharded_worlds"] = c.pop("evals", 0)
+        c["sharded_shards_compared"] = c.pop("shards_compared", 0)
+        c["evals"] = c["sharded_shards_compared"]
+        c.pop("set_interleavings", None)
+        return {"counters": c, "sigs": [["sharded"] + s_ for s_ in out["sigs"]], "sample": out["sample"]}
 
     counters = {}
     sigs = []
